@@ -229,8 +229,8 @@ def check_no_normalisation_on_load(rep, prog, ci, raw):
     SubPackets.parse may write the capture.  The capture is invalidated only by the public mutation API reached from outside."""
     n = 0
     for fn in _load_path_functions(prog):
-        if fn.cls is ci and fn.name == 'parse':
-            continue                    # C05.1 decides the one function that files received subpackets
+        if (fn.cls is ci and fn.name == 'parse') or _only_inlined_helper(prog, fn):
+            continue                    # C05.1 decides the one function that files received subpackets (new helpers of it are inlined there)
         for node in ast.walk(fn.node):
             w = '%s:%d' % (fn.module.relpath, getattr(node, 'lineno', 0))
             if isinstance(node, ast.Call) and isinstance(node.func, ast.Attribute) and node.func.attr == 'addnew':
